@@ -119,6 +119,7 @@ Zoo == { VInf, VNegInf, VNan, VFloat(200000), VInt(2000), VInt(-2000), VInt(3000
          \* sets whose members cannot be ordered; objects that can be neither copied nor pickled
          VObj("set_mixed", <<>>, NoneOpt), VObj("frozenset_mixed", <<>>, NoneOpt),
          VObj("generator", <<>>, NoneOpt), VObj("lock", <<>>, NoneOpt), VObj("uncopyable", <<>>, NoneOpt),
+         VObj("tuple_with_list", <<>>, NoneOpt),       \* a tuple that cannot be hashed
          VObj("MyInt", <<"int">>, Some(VInt(1))), VObj("MyFloat", <<"float">>, Some(VFloat(25))),
          VObj("MyStr", <<"str">>, Some(VStr(<<97, 98>>))), VObj("MyBytes", <<"bytes">>, Some(VBytes(<<97>>))),
          VObj("MyList", <<"list">>, Some(VList(<<VInt(1)>>))),
